@@ -115,10 +115,11 @@ class RF4CECryptoManager:
         if RF4CE_Hdr not in packet:
             raise MissingRF4CEHeader()
 
-        # Check if packet has security enabled
+        # Check if packet has security enabled: a frame without the security
+        # flag carries no MIC and cannot be decrypted
         if (
-            hasattr(packet, "security_enabled")# and
-            #packet.security_enabled == 1
+            hasattr(packet, "security_enabled") and
+            packet.security_enabled == 1
         ):
             self.nonce = self.generateNonce(packet, source)
             if self.nonce is None:
